@@ -94,6 +94,23 @@ func c30gen(rng *rand.Rand, i int) c30cfg {
 			cf.ref.add(c, n, id)
 		}
 	}
+	if rng.Intn(2) == 0 {
+		// option-heavy: more option entries for one client than the file has for it, some of them
+		// redefining IDs of the file
+		cl := []string{"c1", "c2", "*"}[rng.Intn(3)]
+		for id := uint16(1); id <= 4; id++ {
+			if rng.Intn(4) == 0 {
+				continue
+			}
+			n := names[rng.Intn(len(names))]
+			if cl == "*" && rng.Intn(2) == 0 {
+				cf.options = append(cf.options, fmt.Sprintf("%s;%d", n, id))
+			} else {
+				cf.options = append(cf.options, fmt.Sprintf("%s;%s;%d", cl, n, id))
+			}
+			cf.ref.add(cl, n, id)
+		}
+	}
 	for k := rng.Intn(4); k > 0; k-- {
 		n := names[rng.Intn(len(names))]
 		id := uint16(1 + rng.Intn(3))
